@@ -81,15 +81,30 @@ func (c *recChan) Notify(ev notification.Event) {
 
 type recPublisher struct {
 	fail bool
+	keys map[string]bool
 	mu   sync.Mutex
 	recs []evRec
 	bad  []string
 }
 
-func (p *recPublisher) Publish(channel string, data []byte, _ ...centrifuge.PublishOption) (centrifuge.PublishResult, error) {
+func (p *recPublisher) Publish(channel string, data []byte, opts ...centrifuge.PublishOption) (centrifuge.PublishResult, error) {
 	var e domains.HeaderEvent
 	p.mu.Lock()
 	defer p.mu.Unlock()
+	// like the broker: a publication that carries an idempotency key seen before (on this channel) is dropped silently
+	po := &centrifuge.PublishOptions{}
+	for _, o := range opts {
+		o(po)
+	}
+	if po.IdempotencyKey != "" {
+		if p.keys == nil {
+			p.keys = map[string]bool{}
+		}
+		if p.keys[channel+"\x00"+po.IdempotencyKey] {
+			return centrifuge.PublishResult{}, nil
+		}
+		p.keys[channel+"\x00"+po.IdempotencyKey] = true
+	}
 	if channel != "headers" {
 		p.bad = append(p.bad, "published to channel "+channel)
 	}
